@@ -6,6 +6,7 @@
 import PandoraModel.Model.Refinement
 import PandoraModel.Model.PyExpr
 import PandoraModel.Generated.Kernels
+import PandoraModel.Generated.KernelsSelfTest  -- the translator's own test functions, checked by evaluation
 import PandoraModel.Properties.C06
 import Mathlib.Tactic.Linarith
 import Mathlib.Tactic.Ring
